@@ -66,7 +66,7 @@ def run_state_rule(sim: Sim) -> None:
     comp_name = sim.pick(games.computers_for(cls, n), "computer")
     gap_name = sim.pick(sorted(GAP_FUNCTIONS), "gap")
     gap = GAP_FUNCTIONS[gap_name]
-    budget = None if not sim.flip(1, 4, "budget?") else 2 + sim.choose(6, "budget")
+    budget = None if not sim.flip(1, 4, "budget?") else sim.choose(8, "budget")
     prelude.warm_process(sim)
     with sim.guard("C13.construction_raised"):
         inst = ModelInstance(number_of_players=n, seed=sim.choose(1000, "solver-seed"), unique_name="sim")
